@@ -262,7 +262,7 @@ func panicSite(stack string) string {
 		}
 		if seenPanic && strings.Contains(l, "github.com/containers/nri-plugins/") && !strings.Contains(l, "verif") {
 			fn := strings.TrimSpace(l)
-			if j := strings.Index(fn, "("); j > 0 {
+			if j := strings.LastIndex(fn, "("); j > 0 {
 				fn = fn[:j]
 			}
 			fn = strings.TrimPrefix(fn, "github.com/containers/nri-plugins/")
@@ -500,6 +500,9 @@ func (r *Runner) Do(s *Step) *Reply {
 				}
 			}
 		}
+
+	case "hostile":
+		r.doHostile(s, rep)
 
 	case "coldstart-done":
 		c, _ := r.ctrPod(s)
